@@ -60,7 +60,9 @@ def run_pipe(rng, counters):
         k = rng.choice([2, 3, 4, 5, 6, 7, 8, 9, 10, 11, 12, 13, 14, 15])
         p = {"n_chrom": 1, "chrom_len": 2500, "n_var": rng.randint(6, 20), "kinds": ["snv"], "samples": samples, "pedigree": ped,
              "depth": rng.choice([10, 25, 50]), "read_len": rng.choice([(150, 500), (300, 1200)]), "paired": rng.choice([0.0, 0.5]),
-             "end_policy": "clean", "error_rate": rng.choice([0.0, 0.02]), "het_prob": 0.8}
+             "end_policy": "clean", "error_rate": rng.choice([0.0, 0.02]), "het_prob": 0.8,
+             # one file per sample, each numbering its reads from 0: read names recur across the files of a family
+             "per_sample_bam": rng.random() < 0.3, "names_per_sample": rng.random() < 0.5}
         sim = genome.simulate(rng, tmp, p)
         inputs = list(sim.bams)
         with_vcf = rng.random() < 0.4
